@@ -87,11 +87,20 @@ class ConfigMonitor:
         self.expected_mode: Optional[bool] = None     # what the last switch asked for
         self.bad: Optional[str] = None
         self.samples = 0
+        # the two tables as they stand when the run starts (the per-run values the harness installed, or the shipped ones), copied once:
+        # what "the complete active / idle table" means must not follow whatever a switch may do to the table objects themselves
+        self._a = {m: getattr(cfgmod._GeckoActiveConfig, m) for m in self.members}
+        self._i = {m: getattr(cfgmod._GeckoIdleConfig, m) for m in self.members}
+        drawn = world.cfg.get("tables") or {}
+        for m, v in (drawn.get("active") or {}).items():
+            if self._a.get(m) != v:
+                raise HarnessError(f"active table member {m} is {self._a.get(m)!r} at the start of the run, the harness installed {v!r}")
+        for m, v in (drawn.get("idle") or {}).items():
+            if self._i.get(m) != v:
+                raise HarnessError(f"idle table member {m} is {self._i.get(m)!r} at the start of the run, the harness installed {v!r}")
 
     def tables(self):
-        a = {m: getattr(self.cfgmod._GeckoActiveConfig, m) for m in self.members}
-        i = {m: getattr(self.cfgmod._GeckoIdleConfig, m) for m in self.members}
-        return a, i
+        return dict(self._a), dict(self._i)
 
     def mode(self) -> Optional[str]:
         live = {m: getattr(self.cfgmod.GeckoConfig, m) for m in self.members}
